@@ -44,7 +44,9 @@ TRUSTED_BASE = [
     'Lean 4.33.0 kernel (leanchecker re-checks the property modules in the thorough tier)',
     'axioms: propext, Classical.choice, Quot.sound only (audited with #print axioms on every run)',
     'Mathlib v4.33.0 tactic modules used in proof files only',
-    'harness/translate: ast-based extractor regenerating Generated/*.lean from /repo on every run',
+    'harness/translate: ast-based extractor regenerating Generated/*.lean from /repo on every run; it reads each '
+    'module through harness/astnorm (constant propagation / literal folding / two inlining rules under conditions '
+    'checked on the AST; assumed: no other module rebinds or mutates a module constant)',
     'correspondence harness: generators, adapters calling the real code in-process, canonicalisers, '
     'the Lean driver\'s JSON decoding',
     'CPython semantics of the constructs mirrored by hand in the model (DESIGN §6)',
